@@ -23,6 +23,9 @@ var (
 type STUNConn struct {
 	nextConn net.Conn
 	buff     []byte
+	// readErr is an error that nextConn.Read returned together with data; it
+	// is reported once the frames completed by that data have been handed out.
+	readErr error
 }
 
 const (
@@ -83,8 +86,20 @@ func (s *STUNConn) ReadFrom(payload []byte) (n int, addr net.Addr, err error) {
 		return n, s.nextConn.RemoteAddr(), nil
 	}
 
+	if s.readErr != nil {
+		err, s.readErr = s.readErr, nil
+
+		return 0, nil, err
+	}
+
 	// Then read from the nextConn, appending to our buff
 	n, err = s.nextConn.Read(payload)
+	if n > 0 && err != nil {
+		// A Read may return data together with an error (io.Reader), as
+		// crypto/tls does for the last record before a close_notify: the
+		// data counts, it may complete a frame.
+		s.readErr, err = err, nil
+	}
 	if err != nil {
 		return 0, nil, err
 	}
